@@ -9,6 +9,7 @@ Require Import FV.Gen.C15 FV.C15.Model FV.C15.Lemmas FV.C15.LemmasInit FV.C15.Re
 (* obligations on the facts regenerated from /repo (Gen/C15.v) *)
 Theorem C15_source_facts :
   get_module_early_then_init_then_flag = true /\ processcfg_order = true /\
+  processcfg_initialises_every_module = true /\
   descriptive_data_initialises_exported = true /\ shutdown_stops_pollers_first = true /\
   sorted_modules_reversed_postorder = true /\ pollthread_writes_then_reads_then_started = true /\
   startmodule_starts_thread_iff_polled = true /\ initmodule_registers_at_io = true /\
@@ -16,20 +17,20 @@ Theorem C15_source_facts :
   multievent_set_only_when_all_triggered = true /\ 0 < start_timeout.
 Proof. repeat split; try reflexivity; apply Nat.ltb_lt; reflexivity. Qed.
 
-(* FULL STATEMENT (refuted as it stands, see C15_refuted_unexported_never_initialised): every module of the node
-   is early-initialised, initialised and started exactly once, in that order.
-   PROVED, for every acyclic attachment graph (rank decreases along every attachment and io reference) on a node
-   whose creatable modules have all been created (closed; the state after create_modules without Pinata):
-   a module that get_module marked as initialised got exactly one earlyInit and at most one initModule (exactly
-   one unless its earlyInit raised), a module that was never handed out got none.  The modules that are never
-   handed out are exactly the finding class: not exported and attached by nobody. *)
-Theorem C15_init_once_acyclic_except_never_initialised :
+(* every module of the node is early-initialised exactly once and initialised at most once (exactly once unless
+   its earlyInit raised), and is marked as initialised: for every acyclic attachment graph (rank decreases along
+   every attachment and io reference) on a node whose creatable modules have all been created and nothing is
+   initialised yet (fresh: the state after create_modules without Pinata), every depth limit, every step budget.
+   Whatever is not a module of the node gets nothing.  (Since fix 68acea7 this holds without the former exception
+   for modules that are neither exported nor attached.) *)
+Theorem C15_init_once_acyclic :
   forall (rank : name -> nat) limit fuel st,
-    fresh rank st -> stuck (init_all limit fuel st) = false ->
-    forall m, let st' := init_all limit fuel st in
-      (isinit st' m = false -> ce m (trace st') = 0 /\ ci m (trace st') = 0) /\
-      (isinit st' m = true -> ce m (trace st') = 1 /\ ci m (trace st') <= 1).
-Proof. intros rank limit fuel st F NS m. exact (init_all_once rank limit fuel st F NS m). Qed.
+    fresh rank st -> stuck (init_phase limit fuel st) = false ->
+    forall m, let st' := init_phase limit fuel st in
+      (has_key m (modules st) = true ->
+         isinit st' m = true /\ ce m (trace st') = 1 /\ ci m (trace st') <= 1) /\
+      (isinit st' m = false -> ce m (trace st') = 0 /\ ci m (trace st') = 0).
+Proof. intros rank limit fuel st F NS m. exact (init_phase_every_module rank limit fuel st F NS m). Qed.
 
 (* the same as an invariant of every single step of the get_module / Attached.__get__ machine: no module is
    re-entered (the stack of active initialisations is strictly ordered by rank), counts as above *)
@@ -118,11 +119,11 @@ Example C15_demo :
    EStop 0; EStop 1; EStop 0; EStop 1; EShutdown 0; EShutdown 1].
 Proof. vm_compute. reflexivity. Qed.
 
-(* non-vacuity of the hypotheses of C15_init_once_acyclic_except_never_initialised *)
+(* non-vacuity of the hypotheses of C15_init_once_acyclic *)
 Definition demo_rank (n : name) : nat := match n with 0 => 1 | _ => 0 end.
 Example C15_fresh_demo : fresh demo_rank (create_all 40 2000 demo_cfg) /\
-  stuck (init_all 40 2000 (create_all 40 2000 demo_cfg)) = false /\
-  isinit (init_all 40 2000 (create_all 40 2000 demo_cfg)) 0 = true.
+  stuck (init_phase 40 2000 (create_all 40 2000 demo_cfg)) = false /\
+  isinit (init_phase 40 2000 (create_all 40 2000 demo_cfg)) 0 = true.
 Proof.
   split; [|split; vm_compute; reflexivity].
   unfold fresh. split; [vm_compute; reflexivity|]. split; [vm_compute; reflexivity|]. split; [|split].
@@ -132,13 +133,25 @@ Proof.
     repeat (apply Forall_cons; [first [exact I | intros t E; inversion E; subst; vm_compute; lia]|]); apply Forall_nil.
 Qed.
 
+(* the former finding: module 0 has export = False, nobody attaches it, it has a configured start value; it is now
+   initialised, its value is written in the first round of its poll thread, before the node reports ready *)
+Definition cfg_unexported : cfg :=
+  {| c_static := [(0, plain false [] [0]); (1, plain true [] [])]; c_dyn := [] |}.
+Example C15_unexported_module_initialised :
+  rev (trace (lifecycle 40 2000 cfg_unexported
+                [SMain; SMain; SThread 0; SThread 0; SThread 0; SThread 0; SThread 0;
+                 SThread 1; SThread 1; SThread 1; SThread 1; SMain] [0; 1])) =
+  [EEarly 1; EInit 1; EEarly 0; EInit 0; EStart 0; EStart 1;
+   EWrite 0 0; EIReads 0; ERead 0 0; ERead 0 1; EStarted 0; EIReads 1; ERead 1 0; ERead 1 1; EStarted 1;
+   EReady true; EStop 0; EStop 1; EStop 0; EStop 1; EShutdown 1; EShutdown 0].
+Proof. vm_compute. reflexivity. Qed.
+
 Print Assumptions C15_source_facts.
-Print Assumptions C15_init_once_acyclic_except_never_initialised.
+Print Assumptions C15_init_once_acyclic.
 Print Assumptions C15_no_reentry_acyclic.
 Print Assumptions C15_bad_attachment_recorded.
 Print Assumptions C15_errors_never_ready.
 Print Assumptions C15_ready_after_first_round.
 Print Assumptions C15_writes_before_first_poll.
 Print Assumptions C15_shutdown_stops_pollers_first.
-Print Assumptions C15_refuted_unexported_never_initialised.
 Print Assumptions C15_refuted_pinata_order_dependent.
